@@ -268,6 +268,8 @@ def run(tier, seed):  # pylint: disable=too-many-locals,too-many-statements,too-
         "behaviours_extended_to_identify_mechanism": stats["extended"],
         "set_invalid_without_candidate_value_skipped": stats["skipped_invalid"],
         "refused_assignment_left_live_changed_observed": stats["refused_changed_live"],
+        "set_invalid_value_accepted_observed": stats["invalid_accepted"],
+        "behaviours_cut_after_deviation": stats["cut_after_deviation"],
         "classes_discovered": len(targets), "classes_instantiated": len(targets) - len(classes_not_instantiated),
         "pairs_discovered": pairs_total, "pairs_exercised": len(exercised_pairs),
         "pairs_not_exercised": len(not_exercised),
